@@ -191,8 +191,20 @@ func c19Retrieval(outer interface{}, level int, isList bool) (msg, sig string) {
 		name string
 		l    at.List
 		o    at.Object
-	}{{"plain List", at.NewList("pad", outer), at.NewObject("k", outer, "pad", 1)}, {"derived List/Object", newDL("pad", outer), newDO("k", outer, "pad", 1)}}
-	for _, h := range holders {
+	}{{"plain List", at.NewList("pad", outer), at.NewObject("k", outer, "pad", 1)}, {"derived List/Object, after tree-form writes through the stored value", newDL("pad", outer), newDO("k", outer, "pad", 1)}}
+	for hi, h := range holders {
+		if hi == 1 {
+			// second holder pair: first write THROUGH the stored derived value with tree-form paths (the
+			// intermediate is of the right kind and must be reused, not replaced), then retrieve
+			if isList {
+				n := outer.(at.List).Count()
+				h.l.SetTF(fmt.Sprintf("#1#%d", n), "w")
+				h.o.SetTF(fmt.Sprintf(".k#%d", n+1), "w")
+			} else {
+				h.l.SetTF("#1.zz", "w")
+				h.o.SetTF(".k.zy", "w")
+			}
+		}
 		routes := map[string]func() interface{}{
 			"List.Get":   func() interface{} { return h.l.Get(1) },
 			"List.GetTF": func() interface{} { return h.l.GetTF("#1") },
